@@ -39,9 +39,9 @@ fn shape(id: &str, shift: i64) -> (String, String) {
     }
 }
 
-const SITES: [&str; 19] = [
+const SITES: [&str; 23] = [
     "let", "arg", "list2", "list1", "field", "some", "ok", "ret", "othermethod", "modelmethod", "ownmethod", "nested", "alias",
-    "compr", "dict", "tuple", "fielddefault", "matcharm", "fieldassign",
+    "compr", "dict", "tuple", "fielddefault", "matcharm", "fieldassign", "rewrap", "rewrapexpr", "indexarg", "fstring",
 ];
 
 fn program(shape_id: &str, shift: i64, site: &str, v: i64, pos_last: bool) -> String {
@@ -118,6 +118,10 @@ fn program_with(methods: &str, site: &str, v: i64, pos_last: bool) -> String {
         "fielddefault" => "    h = Holder()\n    show(h.p)\n".to_string(),
         "matcharm" => format!("    x = 3\n    match x:\n        3 => show(Pos({v}))\n        _ => println(\"no\")\n"),
         "fieldassign" => format!("    mut h = Holder(p=Pos(1))\n    h.p = Pos({v})\n    show(h.p)\n"),
+        "rewrap" => format!("    o = Other({v})\n    a = Pos(o.0)\n    show(a)\n"),
+        "rewrapexpr" => format!("    o = Other({v})\n    a = Pos(o.0 + 0)\n    show(a)\n"),
+        "indexarg" => format!("    ns = [1, {v}]\n    a = Pos(ns[1])\n    show(a)\n"),
+        "fstring" => format!("    println(f\"{{Pos({v}).0}}\")\n"),
         _ => String::new(),
     };
     s.push_str(&body);
